@@ -34,6 +34,8 @@ def cases(tier, seed):
             g["origin"] = [0.0, 0.0, 0.0]
         if i % 4 == 1:
             g["aniso"] = False
+        if i % 6 == 5:      # far from the origin: coordinate / cell size of 1e5 .. 1e7
+            g["origin"] = [rng.choice([1.0e5, -3.0e5, 2.5e6]) for _ in range(3)]
         cs.append({"gen": g, "sel_seed": seed * 71 + i, "npts": 40 if tier == "quick" else 90, "fmt": dict(ref_ratio_extra=rng.choice([0, 0, 1, 3]), trailing_blank=rng.random() < 0.7, close_blank=rng.random() < 0.3, floatfmt=rng.choice(["repr", "17g"]))})
     return cs
 
@@ -105,7 +107,11 @@ def run_case(case, work, rec):
             if not single:
                 rec.count("multi_field")
             exp = np.array([arr[ijk + (c,)] for c in comps])
-            if vals.shape == exp.shape and np.all(np.abs(vals - exp) <= 1e-9 * max(scale, 1e-300)):
+            # far from the origin the point is known to ulp(x): the interpolation lands eps * |x| / dx cells
+            # off the centre, i.e. the value is off by that fraction of the difference to a neighbouring cell
+            far = max(max(abs(a), abs(b_)) / d_ for a, b_, d_ in zip(m.geo_low, m.geo_high, m.dx[lv]))
+            rtol = 1e-9 + 64 * 2.220446049250313e-16 * far
+            if vals.shape == exp.shape and np.all(np.abs(vals - exp) <= rtol * max(scale, 1e-300)):
                 rec.ok(key, origin_nz or aniso or lv > 0)
             else:
                 rec.violation(f"point query does not return the stored cell value: {descr}", key=key,
